@@ -124,7 +124,9 @@ def explore_c18(ck: Check, n: int, seed: int) -> Explore:
             h = rng.choice([list[leaf], dict[str, leaf], tuple[int, leaf], T.Optional[leaf], set[leaf] if leaf is not gen.U2 else list[leaf],
                             collections.abc.Iterable[leaf], T.Union[int, list[leaf]], list[T.Union[leaf, None]],
                             dict[str, list[leaf]], T.Annotated[leaf, gen.IS_VALIDATORS[0]], tuple[leaf, ...], leaf,
-                            collections.abc.Mapping[str, tuple[leaf, int]], list[h] if rng.random() < 0.3 else list[leaf]])
+                            collections.abc.Mapping[str, tuple[leaf, int]], list[h] if rng.random() < 0.3 else list[leaf],
+                            # the overridden class as a direct member of a union UNDER type[...] (plain classes only)
+                            *( [type[T.Union[leaf, str]], list[type[T.Union[leaf, bytes]]], type[leaf]] if isinstance(leaf, type) else [])])
         made += 1
         for oname, conf, mp in options:
             try:
@@ -144,14 +146,27 @@ def explore_c18(ck: Check, n: int, seed: int) -> Explore:
                 continue
             rp = {'hint': repr(h), 'option': oname, 'hand_rewritten': repr(hr)}
             # 1. code-level: option(h) == default(hand-rewritten h) == Lean gen(model of hand-rewritten)
+            def gen_of(hh, cc):
+                try:
+                    return ('code', real.generated_code(hh, cc))
+                except Exception as e:   # noqa: BLE001
+                    return ('exc', type(e).__name__, str(e)[:200])
+            g_opt, g_hand = gen_of(h, conf), gen_of(hr, default)
+            if g_opt[0] == 'exc' or g_hand[0] == 'exc':
+                # a rewriting that yields an unsupported hint (e.g. type[list[int] | bytes]) must be refused under the option
+                # exactly as the hand-rewritten hint is refused under the default configuration
+                if g_opt[:2] != g_hand[:2]:
+                    fail(f'C18:{oname}:generator-exception:{g_opt[1] if g_opt[0] == "exc" else "none"}-vs-{g_hand[1] if g_hand[0] == "exc" else "none"}',
+                         f'generating code for {h!r:.160} under {oname}: {g_opt[:2]}; for the hand-rewritten {hr!r:.160} under the default '
+                         f'configuration: {g_hand[:2]}', rp)
+                else:
+                    sens['both-refused:' + g_opt[1]] += 1
+                continue
             try:
-                t_opt = astcanon.real_to_tree(*real.generated_code(h, conf), reg, preds, atom_of)
-                t_hand = astcanon.real_to_tree(*real.generated_code(hr, default), reg, preds, atom_of)
+                t_opt = astcanon.real_to_tree(*g_opt[1], reg, preds, atom_of)
+                t_hand = astcanon.real_to_tree(*g_hand[1], reg, preds, atom_of)
             except astcanon.Unmodelled:
                 t_opt = t_hand = None
-            except Exception as e:
-                fail(f'C18:{oname}:generator-exception:{type(e).__name__}', f'generating code for {h!r:.160} under {oname} raised {type(e).__name__}: {e!s:.200}', rp)
-                continue
             ex.evaluations += 1
             if t_opt is not None:
                 d = astcanon.first_diff(t_opt, t_hand)
